@@ -247,7 +247,7 @@ def _diff_facts(side, joined, skip_place, limit=40):
 
 
 class State:
-    __slots__ = ("iv", "rel", "sym", "bottom", "dirty", "taint")
+    __slots__ = ("iv", "rel", "sym", "bottom", "dirty", "taint", "lin")
 
     def __init__(self):
         self.iv = {}
@@ -256,6 +256,7 @@ class State:
         self.bottom = False
         self.dirty = frozenset()     # places (rooted at parameters) written since function entry
         self.taint = frozenset()     # terms that may hold a not yet bounded magnitude-source value (C03; empty elsewhere)
+        self.lin = {}                # place -> (a, b): the place holds a - b for two 'n' values (a remembered difference, see add_le)
 
     def copy(self):
         s = State.__new__(State)
@@ -265,6 +266,7 @@ class State:
         s.bottom = self.bottom
         s.dirty = self.dirty
         s.taint = self.taint
+        s.lin = dict(self.lin) if self.lin else {}
         return s
 
     def mark_dirty(self, entry):
@@ -287,6 +289,39 @@ class State:
         if k == "b":
             return (0, 1)
         return FULL
+
+    def _rel_index(self):
+        idx = {}
+        for (x, y), c in self.rel.items():
+            idx.setdefault(x, []).append((y, c))
+        return idx
+
+    def bound1(self, ta, tb, idx):
+        """bound_diff(ta, tb, depth=1) with a pre-built index of rel by first term (used by join, where it is called often)"""
+        if ta == tb:
+            return 0
+        best = None
+        if ta is not None and tb is not None:
+            best = self.rel.get((ta, tb))
+        ha = 0 if ta is None else self.iv.get(ta, FULL)[1]
+        lb = 0 if tb is None else self.iv.get(tb, FULL)[0]
+        if ha is not None and lb is not None:
+            c = ha - lb
+            if best is None or c < best:
+                best = c
+        if ta is not None:
+            for m, c1 in idx.get(ta, ()):
+                if m == tb:
+                    continue
+                c2 = self.rel.get((m, tb)) if tb is not None else None
+                hm = self.iv.get(m, FULL)[1]
+                if hm is not None and lb is not None and (c2 is None or hm - lb < c2):
+                    c2 = hm - lb
+                if c2 is not None:
+                    c = c1 + c2
+                    if best is None or c < best:
+                        best = c
+        return best
 
     def bound_diff(self, ta, tb, depth=3):
         """least c (or None) with  ta - tb <= c  derivable; ta/tb terms or None (= constant 0)"""
@@ -368,8 +403,19 @@ class State:
         if new != FULL:
             self.iv[t] = new
 
-    def add_le(self, a, b, c=0):
+    def add_le(self, a, b, c=0, _lin=True):
         """assume  a - b <= c  for values a, b"""
+        if _lin and self.lin:
+            # x = p - q (+k) compared with a constant: the bound is one on p - q
+            if a[0] == "n" and a[1] is not None and a[1][0] == "v" and b[0] == "n" and b[1] is None:
+                pq = self.lin.get((a[1][1], a[1][2]))
+                if pq is not None:
+                    self.add_le(pq[0], pq[1], c - a[2] + b[2], _lin=False)
+            if b[0] == "n" and b[1] is not None and b[1][0] == "v" and a[0] == "n" and a[1] is None:
+                pq = self.lin.get((b[1][1], b[1][2]))
+                if pq is not None:
+                    # a.k - (p - q + b.k) <= c   <=>   q - p <= c + b.k - a.k
+                    self.add_le(pq[1], pq[0], c + b[2] - a[2], _lin=False)
         if a[0] == "iv" or b[0] == "iv" or a[0] != "n" or b[0] != "n":
             ia, ib = self.val_iv(a), self.val_iv(b)
             # a <= b + c:  only interval tightening on the 'n' side
@@ -446,6 +492,8 @@ class State:
             return keep_len and t[0] == "len" and term_place(t) == place
         if self.taint:
             self.taint = frozenset(t for t in self.taint if not (hit(term_place(t)) and not keep(t)))
+        if self.lin:
+            self.lin = {p: ab for p, ab in self.lin.items() if not hit(p) and not any(x[1] is not None and hit(term_place(x[1])) for x in ab)}
         for t in [t for t in self.iv if hit(term_place(t)) and not keep(t)]:
             del self.iv[t]
         for k in [k for k in self.rel if any(hit(term_place(t)) and not keep(t) for t in k)]:
@@ -494,6 +542,8 @@ class State:
             return False
         if self.taint:
             self.taint = frozenset(t for t in self.taint if not hit(term_place(t)))
+        if self.lin:
+            self.lin = {p: ab for p, ab in self.lin.items() if not hit(p) and not any(x[1] is not None and hit(term_place(x[1])) for x in ab)}
         for t in [t for t in self.iv if hit(term_place(t))]:
             del self.iv[t]
         for k in [k for k in self.rel if any(hit(term_place(t)) for t in k)]:
@@ -568,6 +618,8 @@ class State:
         s = State()
         s.dirty = self.dirty | other.dirty
         s.taint = self.taint | other.taint
+        if self.lin and other.lin:
+            s.lin = {p: ab for p, ab in self.lin.items() if other.lin.get(p) == ab}
         # a place that aliases a tainted term on one side only keeps its own taint after the alias is dropped
         if self.taint or other.taint:
             extra = set()
@@ -610,16 +662,17 @@ class State:
             j = iv_join(ia, ib)
             if j != FULL:
                 s.iv[t] = iv_meet(s.iv.get(t, FULL), j)
+        idx_s, idx_o = self._rel_index(), other._rel_index()
         for k, c in self.rel.items():
             d = other.rel.get(k)
             if d is None:
-                d = other._alias_bound(k, numeric_places)
+                d = other._alias_bound(k, numeric_places, idx_o)
             if d is not None:
                 s.rel[k] = max(c, d)
         # relations that only the other side holds explicitly but this side implies through an alias
         for k, d in other.rel.items():
             if k not in self.rel and k not in s.rel:
-                c = self._alias_bound(k, numeric_places)
+                c = self._alias_bound(k, numeric_places, idx_s)
                 if c is not None:
                     s.rel[k] = max(c, d)
         # relations of dropped numeric aliases: x == t + k on one side, x within relation on the other
@@ -648,8 +701,8 @@ class State:
                 if t == xt:
                     continue
                 for (x, y) in ((xt, t), (t, xt)):
-                    ca = self._bound_with_alias(x, y, p, va)
-                    cb = other._bound_with_alias(x, y, p, vb)
+                    ca = self._bound_with_alias(x, y, p, va, idx_s)
+                    cb = other._bound_with_alias(x, y, p, vb, idx_o)
                     if ca is not None and cb is not None:
                         s.rel[(x, y)] = min(s.rel.get((x, y), max(ca, cb)), max(ca, cb))
         # a place holding different constants on the two sides, each of them below a container length known on that side
@@ -700,22 +753,23 @@ class State:
                 s.sym[p] = ("b", ("guarded", tuple(fb), tuple(fa)))
         return s
 
-    def _bound_with_alias(self, x, y, p, alias):
+    def _bound_with_alias(self, x, y, p, alias, idx=None):
         """bound on x - y where the place p may be known only through its alias value"""
+        if idx is None:
+            idx = self._rel_index()
         xt = ("v", p[0], p[1])
         if alias is not None and alias[0] == "n":
             if x == xt:
-                d = self.bound_diff(alias[1], y, depth=1)
+                d = self.bound1(alias[1], y, idx)
                 return None if d is None else d + alias[2]
             if y == xt:
-                d = self.bound_diff(x, alias[1], depth=1)
+                d = self.bound1(x, alias[1], idx)
                 return None if d is None else d - alias[2]
-        return self.bound_diff(x, y, depth=1)
+        return self.bound1(x, y, idx)
 
-    def _alias_bound(self, k, numeric_places):
+    def _alias_bound(self, k, numeric_places, idx=None):
         a, b = k
-        d = self.bound_diff(a, b, depth=1)
-        return d
+        return self.bound1(a, b, idx if idx is not None else self._rel_index())
 
     def widen(self, new, thresholds):
         """self = old state at a loop head, new = joined state; returns widened state"""
@@ -724,6 +778,8 @@ class State:
         s = State()
         s.dirty = self.dirty | new.dirty
         s.taint = self.taint | new.taint
+        if self.lin and new.lin:
+            s.lin = {p: ab for p, ab in new.lin.items() if self.lin.get(p) == ab}
         s.sym = {p: v for p, v in new.sym.items() if self.sym.get(p) == v}
         for t, b in new.iv.items():
             a = self.iv.get(t)
@@ -760,6 +816,9 @@ class State:
             return False
         if not (self.taint <= other.taint):
             return False
+        for p, ab in other.lin.items():
+            if self.lin.get(p) != ab:
+                return False
         for p, v in other.sym.items():
             if self.sym.get(p) != v:
                 return False
